@@ -76,6 +76,7 @@ class Ctx:
         self.base_order = []
         self.qbases = {}
         self.sincos = {}
+        self.tokens = {}
         self.canon_terms = {}
         self.atom_pairs = {}
         self.angle_alias = {}        # z3 var name -> z3 term it is congruent to mod 2pi
@@ -420,6 +421,21 @@ class SymR:
 
     def __copy__(self):
         return self
+
+    def __format__(self, spec):
+        """str.format of a symbolic value yields a token that symx.core.parse_token maps back"""
+        if self.c is not None:
+            if self.c.denominator == 1:
+                return format(int(self.c), spec) if spec else str(int(self.c))
+            return format(float(self.c), spec)
+        c = ctx()
+        tid = z3.simplify(self.term()).get_id()
+        for tok, v in c.tokens.items():
+            if z3.simplify(v.term()).get_id() == tid:
+                return tok
+        tok = f"<sym{len(c.tokens)}>"
+        c.tokens[tok] = self
+        return tok
 
     def __float__(self):
         if self.c is not None:
@@ -1703,3 +1719,11 @@ def bool_term(b):
 
 def is_sym(x):
     return isinstance(x, (SymR, SymC, SymB))
+
+
+def parse_token(tok):
+    """inverse of SymR.__format__"""
+    c = ctx()
+    if tok in c.tokens:
+        return c.tokens[tok]
+    return SymR(Fraction(tok))
